@@ -84,10 +84,20 @@ async def one_call(coin, aw, sim, call, faults, n_urls, retry_cfg, tmp, down_url
     state = {'k': 0}
     sim.calls.clear()
 
+    dbl, r_ = 0, init_retry
+    while r_ < max_retry:
+        r_ = min(max_retry, r_ * 2)
+        dbl += 1
+    # bounded progress: once the scripted faults are over, a URL that is up is reached within one full round of fail-overs
+    bound = len(faults) + (n_urls + 1) * (dbl + 2) + 5
+
     def script(info):
         aw.attempt += 1
         k = state['k']
         state['k'] += 1
+        if k > bound and not state.get('stuck'):
+            state['stuck'] = True
+            asyncio.current_task().cancel()
         ui = int(info['url'].split('host')[1].split(':')[0])
         f = faults[k] if k < len(faults) else None
         if ui in down_urls:
@@ -128,6 +138,15 @@ async def one_call(coin, aw, sim, call, faults, n_urls, retry_cfg, tmp, down_url
             result = await d.get_block(blk.hash[::-1].hex(), fname)
     except DaemonError as e:
         exc = ('DaemonError', e)
+    except asyncio.CancelledError:
+        if not state.get('stuck'):
+            raise
+        asyncio.current_task().uncancel()
+        out['violations'].append({'key': 'daemon/call-does-not-return', 'what': f'{call}: still retrying after {state["k"]} attempts although the '
+                                  f'scripted faults ended after {len(faults)} and {n_urls - len(down_urls)} of {n_urls} URLs are up; URLs tried: '
+                                  f'{[u for _t, u, _f, _a in log][-12:]} [faults={faults} down={sorted(down_urls)}]',
+                                  'witness': {'call': call, 'faults': faults, 'n_urls': n_urls, 'retry': retry_cfg, 'down': sorted(down_urls)}})
+        return
     except Exception as e:    # noqa
         exc = (type(e).__name__, e)
 
